@@ -14,6 +14,12 @@ fn problems() -> Vec<(Prob, f64, f64)> {
     vec![(base(Base::Harmonic(2.0)), 4.0, 2.5), (warp(&base(Base::Logistic(3.0)), Warp::Sin), 3.0, 1.2), (base(Base::Lin3), 3.0, 3.0)]
 }
 
+const N_SPAN_FACTORS: usize = 97;
+fn span_factors() -> Vec<f64> {
+    // 1 (the nominal span) and 96 further lengths with unrelated roundings
+    (0..N_SPAN_FACTORS).map(|i| if i == 0 { 1.0 } else { 0.05 + 0.00987 * i as f64 }).collect()
+}
+
 pub fn run_check(replay: Option<Value>) -> i32 {
     let mut rep = Report::new("C06", "model_checking");
     let only = replay.as_ref().and_then(|c| c["key"].as_str().map(|s| s.to_string()));
@@ -30,11 +36,18 @@ pub fn run_check(replay: Option<Value>) -> i32 {
         dim("first_step", &fss),
         dim("max_step", &mss),
         dim("api", &["low-level SolOut", "solve_ivp dense", "solve_ivp dense + terminal event", "solve_ivp without dense", "solve_ivp dense + max_steps=5 (run ends early)", "solve_ivp dense + first_step=2e-13"]),
+        // the end point in many different roundings (api "solve_ivp dense" only): the last reported time and
+        // the end of the last segment must be the same number, however xold + h rounds
+        dim("span_factor", &span_factors()),
     ];
     lattice(&mut rep, "c06", &dims, only.as_deref(), |key, idx| {
         let m = M6[idx[0]];
         let backward = idx[1] == 1;
-        let (p0, span, lip) = &probs[idx[2]];
+        let (p0, span0, lip) = &probs[idx[2]];
+        if idx[7] != 0 && (idx[6] != 1 || idx[4] != 0 || idx[5] != 0) {
+            return None;
+        }
+        let span = &(span0 * span_factors()[idx[7]]);
         let tol = tols[idx[3]];
         let p = if backward { reflect(p0) } else { p0.clone() };
         let xend = if backward { -*span } else { *span };
